@@ -27,10 +27,10 @@ def run(tier, seed, only=None):
     if only:
         items = [i for i in items if only in i.name or only in i.tags]
     famcheck.describe(chk, items, tier)
-    chk.bounds.update({"family": "F4: constructors in every split; + - and the six comparisons on all vector types; scaling; matrix + - * (3x3, 4x4); v[i], m[i], m[i][j] constant and dynamic; "
+    chk.bounds.update({"family": "F4: constructors in every split; + - and the six comparisons on all vector types; scaling (both orders); matrix + - *, matrix * vector (3x3, 4x4); v[i], m[i], m[i][j] constant and dynamic; "
                                  "every swizzle read mask of length 1-4 (quick: float xyzw complete, int / rgba up to length 2; thorough: all), every non-repeating write mask; element and "
                                  "row writes; copies then writes; plus VERIF_SEED-generated random programs composing these operations (120 quick / 2000 thorough)",
-                       "outside": "uint vectors; non-square matrices (not spellable); scalar * matrix and matrix * vector (known findings of C09); rounding"})
+                       "outside": "uint vectors; non-square matrices (not spellable); rounding"})
     famcheck.o1_selftest(chk)
     results = core.run_pool("vlib.harness.C04", "run_instance", [famcheck.pack(i) for i in items])
     famcheck.dedupe(results)
